@@ -37,6 +37,8 @@ ASSUMPTIONS = [
     "molecular coancestry is defined by pybrops for ploidy 1 and 2 only; ploidy 4 is outside the property (a clean refusal is expected, not required)",
     "inverse / min_inbreeding clauses only for matrices with condition number <= 1e6",
     "marker weights are 0 or in [1e-6, 100] (no subnormal numbers)",
+    "panel sizes: up to 70000 markers (with <= 6 taxa) and up to 300 taxa (with <= 1500 markers); sort_taxa/group_taxa "
+    "order = lexicographic (group, then name), ties keep their order (docstring of lexsort_taxa / numpy.lexsort)",
 ]
 
 CLASSES = {
@@ -123,7 +125,9 @@ def case_strategy(draw):
             "nsel": draw(st.integers(0, 50)),
             "eigvaltol": draw(st.sampled_from([None, None, 0.0, -1.0, 1e-8, 0.5, 10.0])),
             "axis": draw(st.sampled_from([None, 0, 1, [0, 1]])),
-            "ij": [draw(st.integers(0, 50)), draw(st.integers(0, 50))]}
+            "ij": [draw(st.integers(0, 50)), draw(st.integers(0, 50))],
+            # in-place history applied to the computed matrix object before it is queried a second time
+            "inplace": draw(st.lists(st.sampled_from(["reorder", "sort", "group"]), min_size=0, max_size=2))}
     if kind != "molecular":
         case["pref"] = draw(_pref_strategy(kind, m))
     if kind == "genweighted":
@@ -191,6 +195,13 @@ def _eq_arr(a, b):
     return a.shape == b.shape and bool((a == b).all())
 
 
+def _layout_of(a):
+    f = a.flags
+    lay = "C" if f.c_contiguous and not f.f_contiguous else ("F" if f.f_contiguous and not f.c_contiguous else
+                                                            ("CF" if f.c_contiguous else "strided"))
+    return lay + ("" if f.writeable else "/readonly")
+
+
 def _fsum_mean(vals):
     vals = list(vals)
     return math.fsum(vals) / len(vals)
@@ -201,7 +212,11 @@ def _fsum_mean(vals):
 # ----------------------------------------------------------------------------------------------------------------------
 def check_views_and_summaries(ctx, cm, ij, axis, eigvaltol):
     """kinship/coancestry views and the summary statistics, re-evaluated on the matrix the object holds"""
-    G = cm.mat
+    held = cm.mat
+    # private C-ordered snapshot: every expectation below is computed from it, and the object is compared with it after
+    # each group of queries (the stored array may be column-major, a strided view or read-only -- a query must not
+    # write to it whatever its memory layout)
+    G = numpy.array(held, dtype=float, order="C", copy=True)
     n = G.shape[0]
     asym = numpy.abs(G - G.T)
     normG = float(numpy.abs(G).sum())
@@ -250,7 +265,7 @@ def check_views_and_summaries(ctx, cm, ij, axis, eigvaltol):
                   bool((numpy.abs(gm - numpy.asarray(emean)) <= 4 * n * n * EPS * amax).all()), "summary.mean",
                   lambda: "format %s axis %s: %s vs %s" % (fmt, ax, gm.tolist(), emean))
         ctx.check(float(cm.max_inbreeding(fmt)) == fac * max(Gl[a][a] for a in range(n)), "summary.max_inbreeding")
-    ctx.check(_eq_arr(cm.mat, G) and cm.mat is G, "summaries_mutated_matrix")
+    ctx.check(cm.mat is held and _eq_arr(cm.mat, G), "summaries_mutated_matrix")
 
     cond = cref.condition_number(G)
     wellcond = cond <= 1e6
@@ -279,7 +294,7 @@ def check_views_and_summaries(ctx, cm, ij, axis, eigvaltol):
                 ctx.check(abs(got - fac * ref) <= mtol, "summary.min_inbreeding",
                           lambda: "format %s: %r expected %r (tol %r)" % (fmt, got, fac * ref, mtol))
             ctx.label("min_inbreeding_checked")
-    ctx.check(_eq_arr(cm.mat, G), "summaries_mutated_matrix")
+    ctx.check(cm.mat is held and _eq_arr(cm.mat, G), "summaries_mutated_matrix")
 
     # ---- PSD predicate against the symmetric eigen-solver, away from the tolerance band ---------------------------------
     et = eigvaltol
@@ -296,6 +311,12 @@ def check_views_and_summaries(ctx, cm, ij, axis, eigvaltol):
                   lambda: "min eig %r < tol %r but answer True" % (lam_min, thr))
     else:
         ctx.label("psd_predicate_in_band")
+    # the predicate is a query: the object still holds the same matrix and answers the same a second time
+    ctx.check(cm.mat is held and _eq_arr(cm.mat, G), "is_positive_semidefinite.mutated_matrix",
+              lambda: "max |after - before| = %r (layout %s)" % (float(numpy.abs(numpy.asarray(cm.mat) - G).max()),
+                                                                 _layout_of(held)))
+    ans2 = cm.is_positive_semidefinite() if et is None else cm.is_positive_semidefinite(et)
+    ctx.check(bool(ans2) == bool(ans), "is_positive_semidefinite.not_repeatable")
 
 
 
@@ -434,6 +455,62 @@ def check_cmat(case, ctx):
     ctx.check(bool((e3 <= 2 * sel_tol).all()), "equivariance.commutes",
               lambda: "idx %s max |select(f(g)) - f(select(g))| = %r" % (idx, float(e3.max())))
 
+    # ---- in-place permutation of the matrix object (reorder / sort / group), then the same object is queried again -----
+    # permuting the taxa of the matrix == the matrix of the permuted genotypes; the object stays a faithful, queryable
+    # relationship matrix afterwards (whatever memory layout the in-place operation leaves behind)
+    ops = case.get("inplace", [])
+    if not ops:
+        return
+    G0 = numpy.array(G, copy=True)
+    cur = list(range(n))
+    applied = 0
+    for op in ops:
+        ctaxa = None if taxa_in is None else [taxa_in[a] for a in cur]
+        cgrp = None if grp_in is None else [int(grp_in[a]) for a in cur]
+        if op == "reorder":
+            cm.reorder_taxa(numpy.array(perm, dtype=int))
+            cur = [cur[a] for a in perm]
+        else:
+            # documented order: lexicographic, group first, then taxon name, ties keep their order
+            if ctaxa is None and cgrp is None:
+                try:
+                    cm.sort_taxa() if op == "sort" else cm.group_taxa()
+                    ctx.label("info:sort_without_keys_accepted")
+                except ValueError:
+                    ctx.label("sort_without_keys_refused")
+                continue
+            order = sorted(range(n), key=lambda a: (0 if cgrp is None else cgrp[a], "" if ctaxa is None else ctaxa[a], a))
+            cm.sort_taxa() if op == "sort" else cm.group_taxa()
+            cur = [cur[a] for a in order]
+        applied += 1
+    if not applied:
+        return
+    ctx.label("inplace_permuted")
+    ctx.label("inplace_nonidentity", cur != list(range(n)))
+    ctx.label("inplace_layout_" + _layout_of(cm.mat))
+    ptaxa = None if taxa_in is None else taxa_in[cur]
+    pgrp = None if grp_in is None else grp_in[cur]
+    ctx.check(_eq_arr(cm.mat, G0[numpy.ix_(cur, cur)]), "equivariance.inplace_values",
+              lambda: "ops %s order %s" % (ops, cur))
+    ctx.check(_eq_arr(cm.taxa, ptaxa) and _eq_arr(cm.taxa_grp, pgrp), "equivariance.inplace_labels",
+              lambda: "ops %s: %s / %s vs %s / %s" % (ops, cm.taxa, cm.taxa_grp, ptaxa, pgrp))
+    pcalls = gmat_rows[:, cur, :] if gmat_rows.ndim == 3 else gmat_rows[cur, :]
+    if case["phased"]:
+        gp = DensePhasedGenotypeMatrix(mat=pcalls.copy(), taxa=ptaxa, taxa_grp=pgrp)
+    else:
+        gp = DenseGenotypeMatrix(mat=pcalls.copy(), taxa=ptaxa, taxa_grp=pgrp, ploidy=pl)
+    cp = call_from_gmat(case, gp)
+    ptol = tol[numpy.ix_(cur, cur)]
+    check_views_and_summaries(ctx, cm, case["ij"], case["axis"], case["eigvaltol"])
+    # after the queries the permuted object still equals the formula evaluated on the permuted genotypes
+    e4 = numpy.abs(numpy.asarray(cm.mat) - Gref[numpy.ix_(cur, cur)])
+    ctx.check(bool((e4 <= ptol).all()), "equivariance.inplace_then_queried",
+              lambda: "ops %s order %s max err %r" % (ops, cur, float(e4.max())))
+    e5 = numpy.abs(numpy.asarray(cm.mat) - cp.mat)
+    ctx.check(bool((e5 <= 2 * ptol).all()), "equivariance.inplace_commutes",
+              lambda: "ops %s max |permute(f(g)) - f(permute(g))| = %r" % (ops, float(e5.max())))
+    ctx.check(_eq_arr(cm.taxa, ptaxa) and _eq_arr(cm.taxa_grp, pgrp), "equivariance.inplace_labels")
+
 
 # ----------------------------------------------------------------------------------------------------------------------
 # sub-check 2: views and summaries on arbitrary symmetric matrices (definite, singular and indefinite)
@@ -449,7 +526,31 @@ def matrix_case(draw):
             "eigvaltol": draw(st.sampled_from([None, None, 0.0, -1.0, 1e-8, 0.5, 10.0])),
             "axis": draw(st.sampled_from([None, 0, 1, [0, 1]])),
             "ij": [draw(st.integers(0, 50)), draw(st.integers(0, 50))],
-            "taxa": draw(st.booleans())}
+            "taxa": draw(st.booleans()),
+            # how the caller's array is laid out in memory
+            "layout": draw(st.sampled_from(LAYOUTS)),
+            "reorder": draw(st.one_of(st.none(), st.lists(st.integers(0, 5), min_size=n, max_size=n)))}
+
+
+LAYOUTS = ["C", "C", "F", "F", "transposed_view", "strided_view", "C_readonly", "F_readonly"]
+
+
+def lay_out(G, layout):
+    """the same values in another memory layout (all legal float64 (n, n) arrays)"""
+    n = G.shape[0]
+    if layout in ("F", "F_readonly"):
+        a = numpy.asfortranarray(G.copy())
+    elif layout == "transposed_view":
+        a = numpy.ascontiguousarray(G.T.copy()).T           # user hands over some_array.T
+    elif layout == "strided_view":
+        big = numpy.full((2 * n + 1, 3 * n + 2), 7.25)
+        a = big[1::2, 2::3][:n, :n]
+        a[...] = G
+    else:
+        a = numpy.ascontiguousarray(G.copy())
+    if layout.endswith("readonly"):
+        a.flags.writeable = False
+    return a
 
 
 def check_matrix(case, ctx):
@@ -458,7 +559,20 @@ def check_matrix(case, ctx):
     G = (B @ B.T) / 16.0 + case["shift"] * numpy.eye(n) + case["offdiag"] * (numpy.ones((n, n)) - numpy.eye(n))
     G = 0.5 * (G + G.T)
     taxa = numpy.array(["t%d" % i for i in range(n)], dtype=object) if case["taxa"] else None
-    cm = CLASSES[case["cls"]][0](mat=G.copy(), taxa=taxa)
+    layout = case.get("layout", "C")
+    cm = CLASSES[case["cls"]][0](mat=lay_out(G, layout), taxa=taxa)
+    if case.get("reorder") is not None:
+        # in-place permutation first (whatever layout that leaves behind); the expectation is permuted alongside
+        keys = case["reorder"]
+        perm = sorted(range(n), key=lambda a: (keys[a], -a))
+        cm.reorder_taxa(numpy.array(perm, dtype=int))
+        G = G[numpy.ix_(perm, perm)]
+        taxa = None if taxa is None else taxa[perm]
+        ctx.check(_eq_arr(cm.taxa, taxa), "reorder.labels")
+        ctx.label("reordered_in_place")
+    ctx.label("layout_" + layout)
+    ctx.label("stored_" + _layout_of(cm.mat))
+    ctx.label("stored_column_major_3plus", n >= 3 and cm.mat.flags.f_contiguous and not cm.mat.flags.c_contiguous)
     ev = numpy.linalg.eigvalsh(G)
     scale = max(float(numpy.abs(G).sum()), 1e-300)
     ctx.label("indefinite", ev[0] < -1e-9 * scale)
@@ -470,6 +584,235 @@ def check_matrix(case, ctx):
     ctx.check(_eq_arr(cm.mat, G), "summaries_mutated_matrix")
 
 
+# ----------------------------------------------------------------------------------------------------------------------
+# sub-check 3: panel sizes across storage / accumulator boundaries (many markers or many taxa), closed-form expectation
+# ----------------------------------------------------------------------------------------------------------------------
+# The genome is made of a few segments; inside a segment every marker is a copy of the same column (taxon i carries
+# x[type(i)][s] copies of the coded allele, reference frequency p_s, weight w_s).  Every formula is a sum over markers,
+# so entry (i,k) is  sum_s L_s * term_s(i,k)  with L_s the segment length: a closed form with a handful of terms that is
+# evaluated in exact rationals, however many markers there are.  Marker order is irrelevant to every estimator, so the
+# columns may be shuffled.  "Inbred" material (dosages 0 or ploidy only) is frequent because that is what makes the
+# per-pair sums largest (self-coancestry 2: every marker contributes its maximum).
+BOUNDARY_M = [127, 128, 129, 255, 256, 257, 32767, 32768, 32769, 40000, 65535, 65536, 65537, 70000]
+BOUNDARY_N = [127, 128, 129, 255, 256, 257, 300]
+
+
+@st.composite
+def big_case(draw):
+    kind = draw(st.sampled_from(["molecular", "molecular", "vanraden", "yang", "genweighted"]))
+    ploidy = draw(st.sampled_from([1, 2, 2] if kind == "molecular" else [1, 2, 2, 4]))
+    T = draw(st.integers(2, 5))
+    if draw(st.sampled_from([True, True, True, False])):
+        shape = "many_markers"
+        n = T + draw(st.sampled_from([0, 0, 1]))
+        m = draw(st.one_of(st.sampled_from(BOUNDARY_M), st.sampled_from(BOUNDARY_M[6:]), st.integers(30000, 70000),
+                           st.integers(100, 70000)))
+    else:
+        shape = "many_taxa"
+        n = draw(st.one_of(st.sampled_from(BOUNDARY_N), st.integers(100, 300)))
+        m = draw(st.one_of(st.sampled_from(BOUNDARY_M[:6]), st.integers(1, 1500)))
+    K = draw(st.integers(1, min(6, m)))
+    cuts = sorted(draw(st.integers(1, 10 ** 6)) for _ in range(K - 1))
+    hom = st.sampled_from([0, ploidy, 0, ploidy, 0, ploidy, None])
+    x = [[draw(hom) for _ in range(K)] for _ in range(T)]
+    x = [[draw(st.integers(0, ploidy)) if v is None else v for v in row] for row in x]
+    case = {"kind": kind, "via": draw(st.sampled_from(["classmethod", "factory"])), "phased": draw(st.booleans()),
+            "ploidy": ploidy, "shape": shape, "T": T, "n": n, "m": m, "K": K, "cuts": cuts, "x": x,
+            "phase_rot": draw(st.integers(0, 3)),
+            "shuffle": draw(st.one_of(st.none(), st.integers(0, 2 ** 16))),
+            "pref": None, "wt": None,
+            "eigvaltol": draw(st.sampled_from([None, 0.0, 1e-8, 0.5])),
+            "axis": draw(st.sampled_from([None, 0, 1, [0, 1]])),
+            "ij": [draw(st.integers(0, 400)), draw(st.integers(0, 400))]}
+    if kind != "molecular":
+        case["pref"] = draw(_pref_strategy(kind, K))            # scalar, or one value per segment
+    if kind == "genweighted":
+        w = st.one_of(st.sampled_from([0.0, 1.0, 2.0, 0.5]), st.floats(1e-6, 100.0, allow_nan=False, width=64))
+        case["wt"] = draw(st.one_of(st.none(), w, st.lists(w, min_size=K, max_size=K)))
+    return case
+
+
+def segment_lengths(m, K, cuts):
+    """K positive lengths summing to m (cut points scaled into 1..m-1, made strictly increasing)"""
+    pos = []
+    for r, c in enumerate(sorted(cuts)):
+        v = 1 + (c * (m - 1)) // (10 ** 6 + 1)
+        lo = (pos[-1] + 1) if pos else 1
+        v = max(v, lo)
+        pos.append(v)
+    # push back from the right so that every segment keeps at least one marker
+    for r in range(len(pos) - 1, -1, -1):
+        hi = m - (len(pos) - r)
+        pos[r] = min(pos[r], hi)
+    edges = [0] + pos + [m]
+    L = [edges[a + 1] - edges[a] for a in range(len(edges) - 1)]
+    assert len(L) == K and all(v >= 1 for v in L) and sum(L) == m, (m, K, cuts, L)
+    return L
+
+
+def block_oracle(kind, x, types, ploidy, L, pref, wt):
+    """closed form on the segment table: x[t][s] dosage of taxon type t in segment s, types[i] type of taxon i,
+    L[s] markers in segment s, pref / wt None | scalar | one value per segment.  Returns (G, S) like the reference
+    module: G correctly rounded from exact rational sums of the (floating-point) per-marker terms."""
+    from fractions import Fraction
+    T, K = len(x), len(L)
+    n, m = len(types), sum(L)
+    cnt = [sum(1 for t in types if t == u) for u in range(T)]
+    GT = [[0.0] * T for _ in range(T)]
+    ST = [[0.0] * T for _ in range(T)]
+    if kind == "molecular":
+        for a in range(T):
+            for b in range(T):
+                tot = Fraction(0)
+                for s_ in range(K):
+                    xa, xb = x[a][s_], x[b][s_]
+                    # P(identical in state) for one allele drawn from each: both coded or both not coded
+                    tot += L[s_] * Fraction(xa * xb + (ploidy - xa) * (ploidy - xb), ploidy * ploidy)
+                GT[a][b] = float(2 * tot / m)
+                ST[a][b] = 2.0
+    else:
+        if pref is None:
+            pex = [Fraction(sum(cnt[u] * x[u][s_] for u in range(T)), ploidy * n) for s_ in range(K)]
+            p = [float(f) for f in pex]
+        elif isinstance(pref, (int, float)):
+            p = [float(pref)] * K
+        else:
+            p = [float(v) for v in pref]
+        if wt is None:
+            w = [1.0] * K
+        elif isinstance(wt, (int, float)):
+            w = [float(wt)] * K
+        else:
+            w = [float(v) for v in wt]
+        if kind == "vanraden":
+            if pref is None:
+                den = float(ploidy * sum(L[s_] * pex[s_] * (1 - pex[s_]) for s_ in range(K)))
+            else:
+                den = float(ploidy * sum(L[s_] * Fraction(q * (1.0 - q)) for s_, q in enumerate(p)))
+            if not den > 0.0:
+                raise cref.DomainError("sum p(1-p) is zero")
+            colscale, glob = [1.0] * K, 1.0 / den
+        elif kind == "yang":
+            for q in p:
+                if not (0.0 < q < 1.0):
+                    raise cref.DomainError("frequency on the boundary")
+            colscale, glob = [1.0 / (ploidy * q * (1.0 - q)) for q in p], 1.0 / m
+        else:
+            colscale, glob = w, 1.0
+        dev = [[x[u][s_] - ploidy * p[s_] for s_ in range(K)] for u in range(T)]
+        for a in range(T):
+            for b in range(T):
+                terms = [colscale[s_] * dev[a][s_] * dev[b][s_] for s_ in range(K)]
+                GT[a][b] = glob * float(sum(L[s_] * Fraction(t) for s_, t in enumerate(terms)))
+                ST[a][b] = abs(glob) * float(sum(L[s_] * Fraction(abs(t)) for s_, t in enumerate(terms)))
+    GT, ST = numpy.array(GT), numpy.array(ST)
+    ix = numpy.ix_(types, types)
+    return GT[ix], ST[ix]
+
+
+def _block_selftest():
+    # the closed form agrees with the marker-by-marker reference on an expanded toy panel
+    x = [[0, 2, 1], [2, 2, 0], [1, 0, 0]]
+    types = [0, 1, 2, 1]
+    L = [3, 1, 2]
+    seg = [s_ for s_, l in enumerate(L) for _ in range(l)]
+    dos = [[x[t][s_] for s_ in seg] for t in types]
+    pseg, wseg = [0.25, 0.5, 0.7], [2.0, 0.0, 0.3]
+    pm, wm = [pseg[s_] for s_ in seg], [wseg[s_] for s_ in seg]
+    for kind, ref in (("molecular", cref.molecular(dos, 2)), ("vanraden", cref.vanraden(dos, 2, pm)),
+                      ("vanraden0", cref.vanraden(dos, 2, None)), ("yang", cref.yang(dos, 2, pm)),
+                      ("genweighted", cref.generalized_weighted(dos, 2, wm, pm)),
+                      ("genweighted0", cref.generalized_weighted(dos, 2, None, None))):
+        none = kind.endswith("0")
+        G, S = block_oracle(kind.rstrip("0"), x, types, 2, L, None if none else pseg, None if none else wseg)
+        assert numpy.allclose(G, ref[0], rtol=1e-13, atol=1e-15), (kind, G, ref[0])
+        assert numpy.allclose(S, ref[1], rtol=1e-13, atol=1e-15), (kind, S, ref[1])
+
+
+_block_selftest()
+
+
+def check_big(case, ctx):
+    kind, pl, n, m, K, T = case["kind"], case["ploidy"], case["n"], case["m"], case["K"], case["T"]
+    L = segment_lengths(m, K, case["cuts"])
+    x = [list(r) for r in case["x"]]
+    types = [i % T for i in range(n)]
+    reestimates = kind != "molecular" and case["pref"] is None
+    if reestimates and kind in ("vanraden", "yang"):
+        # stay inside the formula's domain by construction (a polymorphic segment where the formula divides by p(1-p))
+        def mono(s_):
+            tot = sum(x[types[i]][s_] for i in range(n))
+            return tot == 0 or tot == pl * n
+        need = range(K) if kind == "yang" else ([0] if all(mono(s_) for s_ in range(K)) else [])
+        for s_ in need:
+            if mono(s_):
+                x[0][s_] = pl - x[0][s_]
+    seg = numpy.repeat(numpy.arange(K), L)
+    if case["shuffle"] is not None:
+        seg = seg[numpy.random.default_rng(case["shuffle"]).permutation(m)]
+    xt = numpy.array(x, dtype="int8")                       # (T, K)
+    dos = xt[numpy.array(types)][:, seg]                    # (n, m) int8
+    if case["phased"]:
+        # chromosome copy c carries the coded allele iff its (rotated) rank is below the dosage
+        rank = (numpy.arange(pl)[:, None, None] + (case["phase_rot"] * seg)[None, None, :]) % pl
+        g = DensePhasedGenotypeMatrix(mat=(rank < dos[None, :, :]).astype("int8"),
+                                      taxa=numpy.array(["t%03d" % i for i in range(n)], dtype=object))
+    else:
+        g = DenseGenotypeMatrix(mat=dos.copy(), ploidy=pl,
+                                taxa=numpy.array(["t%03d" % i for i in range(n)], dtype=object))
+    ctx.check(numpy.array_equal(dosage_of(g), dos), "harness.construction")
+
+    def per_marker(v):
+        return numpy.array(v, dtype=float)[seg] if isinstance(v, list) else v
+    pcase = {"kind": kind, "via": case["via"], "pref": None, "wt": None, "ij": case["ij"]}
+    pm, wm = per_marker(case["pref"]), per_marker(case["wt"])
+    pcase["pref"] = pm.tolist() if isinstance(pm, numpy.ndarray) else pm
+    pcase["wt"] = wm.tolist() if isinstance(wm, numpy.ndarray) else wm
+
+    ctx.label(kind)
+    ctx.label("ploidy%d" % pl)
+    ctx.label(case["shape"])
+    ctx.label("phased" if case["phased"] else "unphased")
+    ctx.label("markers_ge_128", m >= 128)
+    ctx.label("markers_ge_32768", m >= 32768)
+    ctx.label("markers_ge_65536", m >= 65536)
+    ctx.label("taxa_ge_128", n >= 128)
+    ctx.label("taxa_ge_256", n >= 256)
+    hom_markers = max(sum(l for s_, l in enumerate(L) if x[t][s_] in (0, pl)) for t in range(T))
+    ctx.label("inbred_taxon_ge_32768_markers", hom_markers >= 32768)
+    ctx.label("molecular_inbred_ge_32768_markers", kind == "molecular" and hom_markers >= 32768)
+    ctx.label("shuffled_markers", case["shuffle"] is not None)
+
+    try:
+        Gref, S = block_oracle(kind, x, types, pl, L, case["pref"], case["wt"])
+    except cref.DomainError:
+        ctx.label("outside_formula_domain")
+        raise Reject()
+    snap = numpy.array(g.mat, copy=True)
+    cm = call_from_gmat(pcase, g)
+    G = cm.mat
+    ctx.check(isinstance(G, numpy.ndarray) and G.shape == (n, n) and G.dtype == numpy.float64, "mat.shape_dtype",
+              lambda: "%s %s" % (G.shape, G.dtype))
+    ctx.check(_eq_arr(g.mat, snap), "from_gmat_mutated_gmat")
+    tol = (8 * m + 32) * EPS * S + 1e-300
+    err = numpy.abs(G - Gref)
+    bad = numpy.argwhere(~(err <= tol))
+    ctx.check(len(bad) == 0, "value.%s" % kind,
+              lambda: "entry %s: got %r expected %r (tol %.3g); ploidy=%d n=%d m=%d segments %s" % (
+                  bad[0].tolist(), float(G[tuple(bad[0])]), float(Gref[tuple(bad[0])]), float(tol[tuple(bad[0])]),
+                  pl, n, m, L))
+    ctx.nontrivial(len({tuple(r) for r in x[:min(T, n)]}) >= 2)
+    ctx.check(_eq_arr(cm.taxa, g.taxa), "labels.taxa")
+    asym = numpy.abs(G - G.T)
+    ctx.check(bool((asym <= 2 * tol).all()), "symmetric", lambda: "max |G-G'| = %r" % float(asym.max()))
+    normG = float(numpy.abs(G).sum())
+    lam_min = cref.min_eigenvalue(G)
+    psd_slack = float(tol.sum()) + 16 * n * EPS * normG
+    ctx.check(lam_min >= -psd_slack, "positive_semidefinite",
+              lambda: "min eigenvalue %r < -%r" % (lam_min, psd_slack))
+    check_views_and_summaries(ctx, cm, case["ij"], case["axis"], case["eigvaltol"])
+
+
 SUBCHECKS = [
     SubCheck("cmat", check_cmat, case_strategy(), quick=900, thorough=5000, shards_quick=4,
              rule="generated (estimator x classmethod|factory x phased|unphased x ploidy 1/2/4 x 1-12 taxa x 1-25 markers "
@@ -478,10 +821,20 @@ SUBCHECKS = [
              required_labels=("molecular", "vanraden", "yang", "genweighted", "ref_given", "ref_sample",
                               "selection_is_nonidentity_permutation", "selection_is_proper_subset",
                               "well_conditioned", "min_inbreeding_checked", "psd_predicate_expected_true",
-                              "psd_predicate_expected_false", "has_identical_taxa", "ploidy1", "ploidy4")),
+                              "psd_predicate_expected_false", "has_identical_taxa", "ploidy1", "ploidy4",
+                              "inplace_permuted", "inplace_nonidentity")),
     SubCheck("summaries", check_matrix, matrix_case(), quick=400, thorough=4000, shards_quick=2,
              rule="generated symmetric matrices B B'/16 + shift I + offdiag (1-7 taxa; positive definite, singular and "
-                  "indefinite) wrapped in each coancestry class; non-trivial = >= 2 taxa",
+                  "indefinite) wrapped in each coancestry class, handed over row-major / column-major / as a transposed "
+                  "or strided view / read-only, optionally permuted in place first; non-trivial = >= 2 taxa",
              required_labels=("indefinite", "positive_definite", "singular_psd", "min_inbreeding_checked",
-                              "psd_predicate_expected_true", "psd_predicate_expected_false")),
+                              "psd_predicate_expected_true", "psd_predicate_expected_false",
+                              "stored_column_major_3plus", "layout_strided_view", "layout_F_readonly",
+                              "reordered_in_place")),
+    SubCheck("sizes", check_big, big_case(), quick=40, thorough=150, shards_quick=4,
+             rule="segment-constant panels (2-5 genotype classes x 1-6 segments, mostly homozygous) expanded to 100-70000 "
+                  "markers x 2-6 taxa or 100-300 taxa x 1-1500 markers, sizes concentrated on 2^7, 2^8, 2^15, 2^16 +-1; "
+                  "closed-form expectation in exact rationals; non-trivial = at least two different genotype classes",
+             required_labels=("molecular", "vanraden", "yang", "genweighted", "markers_ge_32768", "markers_ge_65536",
+                              "taxa_ge_128", "taxa_ge_256", "molecular_inbred_ge_32768_markers", "ploidy1", "ploidy2")),
 ]
